@@ -124,6 +124,29 @@ def derive_cfg(wd, base, **consts):
     return path
 
 
+# The mechanism model follows the code: a defect switch is "as coded" (TRUE) while its finding is open and is
+# turned off once known_findings.json records the repair, so that generated behaviours, predictions and the
+# classification of failing runs are made with the model of the code as it is now.
+SWITCH_OF = {"StaleFill": "KF_STALE_FILL", "LostInsert": "KF_LOST_INSERT", "FlushMax": "KF_OVERLAY_RETAINED",
+             "FoldCancel": "KF_OVERLAY_FOLD", "SpillCut": "KF_SPILL_CUT"}
+
+
+def code_switches(base):
+    filed = {k["id"]: k.get("status") for k in vp.load_known() if k["property"] == PID}
+    txt = open(os.path.join(vp.SPECS, base)).read()
+    out = {}
+    for sw, kid in SWITCH_OF.items():
+        if re.search(r"(?m)^  %s = " % sw, txt):
+            out[sw] = "FALSE" if filed.get(kid) == "fixed" else "TRUE"
+    return out
+
+
+def code_cfg(wd, base, **consts):
+    c = code_switches(base)
+    c.update(consts)
+    return derive_cfg(wd, base, **c)
+
+
 FILL_LO, FILL_N = 200, 1023   # filler elements that scale the model threshold 1 to the real 1024
 
 
@@ -150,12 +173,12 @@ def gen_behaviours(wd, seed, tier, ev):
     ncex = 24 if q else 150
     nsim = 60 if q else 600
     cov = {}
-    fams = [("WideColumnCache", derive_cfg(wd, "WideColumnCache_Cex.cfg", **({"MaxOps": 2} if q else {})),
-             "WideColumnCache_Gen.cfg", False),
-            ("KeyOfSetCache", derive_cfg(wd, "KeyOfSetCache_Cex.cfg", **({"MaxBatches": 2} if q else {})),
-             "KeyOfSetCache_Gen.cfg", False),
-            ("KeyOfSetCache", derive_cfg(wd, "KeyOfSetCache_CexL.cfg", **({} if q else {"MaxOps": 6})),
-             "KeyOfSetCache_GenL.cfg", True)]
+    fams = [("WideColumnCache", code_cfg(wd, "WideColumnCache_Cex.cfg", **({"MaxOps": 2} if q else {})),
+             code_cfg(wd, "WideColumnCache_Gen.cfg"), False),
+            ("KeyOfSetCache", code_cfg(wd, "KeyOfSetCache_Cex.cfg", **({"MaxBatches": 2} if q else {})),
+             code_cfg(wd, "KeyOfSetCache_Gen.cfg"), False),
+            ("KeyOfSetCache", code_cfg(wd, "KeyOfSetCache_CexL.cfg", **({} if q else {"MaxOps": 6})),
+             code_cfg(wd, "KeyOfSetCache_GenL.cfg"), True)]
     for mod, cexcfg, gencfg, scaled in fams:
         if scaled:
             ncex_f, nsim_f = (8, 12) if q else (40, 80)
@@ -163,7 +186,7 @@ def gen_behaviours(wd, seed, tier, ev):
             ncex_f, nsim_f = ncex, nsim
         r = vp.tlc(mod, cfg=cexcfg, workers=4, timeout=1500, extra=["-continue"], check_ok=False, xmx="6g")
         cex = [b for b in printed_json(r["out"]) if "cex" in b]
-        if not cex:
+        if not cex and "FALSE" not in code_switches(os.path.basename(cexcfg)).values():
             raise vp.ToolError(f"{cexcfg}: the as-coded model printed no counterexample\n{r['out'][-2000:]}")
         # one shortest representative per (tag set, step shape) class, then a seeded sample
         classes = collections.OrderedDict()
@@ -202,7 +225,7 @@ def gen_behaviours(wd, seed, tier, ev):
             b["origin"] = "sim"
             b["scaled"] = scaled
         behs += sim
-        cov[gencfg] = {"walks": len(sim)}
+        cov[os.path.basename(gencfg)] = {"walks": len(sim)}
     ev["generator"] = cov
     # concrete maps: the wide model is replayed on the single and on the dynamic map
     out = []
@@ -298,7 +321,7 @@ def classify(wd, name, runs, is_set, timeout=900):
     if os.path.exists(op):
         os.remove(op)
     mod = "KeyOfSetCacheTrace" if is_set else "WideColumnCacheTrace"
-    r = vp.tlc(mod, cfg=mod + ".cfg", env={"TRACE": tp, "OUT": op}, workers=1, deque=True,
+    r = vp.tlc(mod, cfg=code_cfg(wd, mod + ".cfg"), env={"TRACE": tp, "OUT": op}, workers=1, deque=True,
                timeout=timeout, xmx="6g", check_ok=False)
     if not os.path.exists(op):
         if "NotDone" not in r["invariant_violated"] and not r["ok"]:
